@@ -229,6 +229,7 @@ pub fn scenarios(thorough: bool) -> Vec<Scenario> {
     v.push(array_deleted_scenario("pair-array-deleted-vs-edited-twice", 2, if thorough { 4 } else { 3 }, &[]));
     // depth 2 in both tiers: every pair of operations from every prepared state
     v.extend(cross_scenarios_depth(2));
+    v.extend(combo_scenarios(thorough));
     v
 }
 
